@@ -854,6 +854,191 @@ fn c18_graph(rng: &mut Rng, max_n: usize) -> GraphSpec {
     GraphSpec { n, calls, reads, writes }
 }
 
+// ---- C18 second monitor: growth of the CPU time of build() along graph families ----
+//
+// The pop counter only sees RankCalc. Work done elsewhere in build() (augmenter, counts, structure
+// copies) has no hook, and a hook could not anticipate where a regression puts its loop. What is
+// observable without hooks is how the cost grows along a family whose size grows by ~15-20 % per
+// step: polynomial work of degree k grows by at most 1.2^k per step (k = 6: 2.99), path
+// enumeration grows by the branching factor per layer (>= 4 per two layers). The measure is
+// *thread CPU time* (CLOCK_THREAD_CPUTIME_ID), not wall-clock, min of 3 repetitions, and the
+// schedule stops as soon as one build costs more than 60 ms, so an exponential regression is
+// detected after a few milliseconds of work instead of being waited for.
+
+#[repr(C)]
+struct Timespec {
+    tv_sec: i64,
+    tv_nsec: i64,
+}
+extern "C" {
+    fn clock_gettime(clk_id: i32, tp: *mut Timespec) -> i32;
+}
+pub fn thread_cpu_ns() -> u64 {
+    let mut ts = Timespec { tv_sec: 0, tv_nsec: 0 };
+    // CLOCK_THREAD_CPUTIME_ID = 3 on Linux
+    let rc = unsafe { clock_gettime(3, &mut ts) };
+    if rc != 0 {
+        return 0;
+    }
+    ts.tv_sec as u64 * 1_000_000_000 + ts.tv_nsec as u64
+}
+
+/// One member of a growth family: `size` is the family parameter (number of layers etc.).
+pub fn growth_family(fam: usize, size: usize, rng: &mut Rng) -> GraphSpec {
+    let mut edges: Vec<(usize, usize)> = Vec::new();
+    let n;
+    let mut reads;
+    let mut writes;
+    match fam {
+        // 0,1,2: layered w x size, complete bipartite between layers; accesses: none / all write one type / ends conflict
+        0 | 1 | 2 | 3 => {
+            let w = if fam == 3 { 2 } else { 3 };
+            n = w * size;
+            for l in 0..size - 1 {
+                for a in 0..w {
+                    for b in 0..w {
+                        edges.push((l * w + a, (l + 1) * w + b));
+                    }
+                }
+            }
+            reads = vec![0u8; n];
+            writes = vec![0u8; n];
+            match fam {
+                1 => writes.iter_mut().for_each(|x| *x = 1),
+                2 | 3 => {
+                    writes[0] = 1;
+                    writes[n - 1] = 1;
+                    reads[n / 2] = 1;
+                }
+                _ => {}
+            }
+        }
+        // 4: two pipelines: layered 3 x size plus an independent chain of size+1, first of A and last of B conflict
+        4 => {
+            let w = 3;
+            let na = w * size;
+            let nb = size + 1;
+            n = na + nb;
+            for l in 0..size - 1 {
+                for a in 0..w {
+                    for b in 0..w {
+                        edges.push((l * w + a, (l + 1) * w + b));
+                    }
+                }
+            }
+            for i in 0..nb - 1 {
+                edges.push((na + i, na + i + 1));
+            }
+            reads = vec![0u8; n];
+            writes = vec![0u8; n];
+            writes[0] = 1;
+            writes[n - 1] = 1;
+        }
+        // 5: diamond chain with every join writing
+        5 => {
+            n = 3 * size + 1;
+            for i in 0..size {
+                let b = 3 * i;
+                edges.push((b, b + 1));
+                edges.push((b, b + 2));
+                edges.push((b + 1, b + 3));
+                edges.push((b + 2, b + 3));
+            }
+            reads = vec![0u8; n];
+            writes = vec![0u8; n];
+            for i in 0..=size {
+                writes[3 * i] = 1;
+            }
+            reads[1] = 1;
+        }
+        // 6: isolated functions, all writers of one type (augmenter chains them; quadratic pair scan)
+        6 => {
+            n = 4 * size;
+            reads = vec![0u8; n];
+            writes = vec![1u8; n];
+        }
+        // 7: complete DAG, alternate readers / writers
+        _ => {
+            n = 2 * size;
+            for i in 0..n {
+                for j in i + 1..n {
+                    edges.push((i, j));
+                }
+            }
+            reads = (0..n).map(|i| (i % 2) as u8).collect();
+            writes = (0..n).map(|i| ((i + 1) % 2) as u8).collect();
+        }
+    }
+    // random relabelling so that insertion order is not topological order
+    let mut perm: Vec<usize> = (0..n).collect();
+    rng.shuffle(&mut perm);
+    let mut calls: Vec<(u32, u32, EK)> = edges.iter().map(|&(a, b)| (perm[a] as u32, perm[b] as u32, EK::Logic)).collect();
+    rng.shuffle(&mut calls);
+    let mut r2 = vec![0u8; n];
+    let mut w2 = vec![0u8; n];
+    for i in 0..n {
+        r2[perm[i]] = reads[i];
+        w2[perm[i]] = writes[i];
+    }
+    GraphSpec { n, calls, reads: r2, writes: w2 }
+}
+
+pub const GROWTH_FAMILIES: usize = 8;
+const GROWTH_RATIO: f64 = 3.0;
+const GROWTH_MIN_NS: u64 = 300_000;
+const GROWTH_STOP_NS: u64 = 60_000_000;
+
+/// Measures build() CPU time along one family. Returns the (n, ns) series.
+pub fn growth_series(fam: usize, seed: u64, max_size: usize) -> Result<Vec<(usize, u64)>, String> {
+    let mut series = Vec::new();
+    let mut size = 10;
+    // the hook budget must not interfere here
+    fn_graph::verif_hooks::set_rank_calc_pop_budget(None);
+    while size <= max_size {
+        let mut best = u64::MAX;
+        let mut n = 0;
+        for rep in 0..3 {
+            let mut rng = Rng::new(mix(seed, (fam * 1000 + size) as u64));
+            let gs = growth_family(fam, size, &mut rng);
+            n = gs.n;
+            let (b, _) = tfn::builder_from_spec(&gs);
+            let t0 = thread_cpu_ns();
+            let r = catch_unwind(AssertUnwindSafe(move || b.build()));
+            let dt = thread_cpu_ns().saturating_sub(t0);
+            if r.is_err() {
+                return Err(format!("build panicked for family {fam} size {size}"));
+            }
+            best = best.min(dt);
+            if dt > GROWTH_STOP_NS && rep == 0 {
+                break;
+            }
+        }
+        series.push((n, best));
+        if best > GROWTH_STOP_NS {
+            break;
+        }
+        size += 2;
+    }
+    Ok(series)
+}
+
+/// Three consecutive steps each multiplying the cost by >= GROWTH_RATIO (only counting points above the noise floor).
+pub fn superpolynomial(series: &[(usize, u64)]) -> Option<usize> {
+    let mut run = 0;
+    for i in 1..series.len() {
+        let (a, b) = (series[i - 1].1, series[i].1);
+        if a >= GROWTH_MIN_NS / 4 && b >= GROWTH_MIN_NS && (b as f64) >= GROWTH_RATIO * (a as f64) {
+            run += 1;
+            if run >= 3 {
+                return Some(i);
+            }
+        } else {
+            run = 0;
+        }
+    }
+    None
+}
+
 // ------------------------------------------------------------------------------------------ driver
 
 pub const BUILD_RULE: &str = "case = one sequence of builder calls (functions with access declarations + edge calls incl. rejected ones); \
@@ -992,14 +1177,55 @@ pub fn run(opts: &Opts) -> Option<(Stats, Vec<String>, String)> {
             }
         });
         total.merge(rnd);
+        // second monitor: CPU-time growth along families (hook-free; covers work outside RankCalc)
+        let max_size = if q { 40 } else { 110 };
+        let reps: u64 = if q { 2 } else { 6 };
+        let gr = par_for(opts.jobs.min(GROWTH_FAMILIES), GROWTH_FAMILIES as u64 * reps, 1, Some(deadline), |st, i, slot| {
+            let fam = (i as usize) % GROWTH_FAMILIES;
+            {
+                let mut w = slot.what.lock().unwrap();
+                w.clear();
+                w.push_str(&format!("growth family {fam}"));
+            }
+            match growth_series(fam, mix(seed, i), max_size) {
+                Err(m) => st.inconclusive.push(m),
+                Ok(series) => {
+                    st.evaluations += series.len() as u64;
+                    st.count("growth.series_measured");
+                    st.add("growth.points_measured", series.len() as u64);
+                    st.max("growth.max_functions_measured", series.last().map(|x| x.0).unwrap_or(0) as u64);
+                    st.max("growth.max_build_cpu_micros", series.iter().map(|x| x.1).max().unwrap_or(0) / 1000);
+                    let worst = series.windows(2).filter(|w| w[1].1 >= GROWTH_MIN_NS && w[0].1 > 0).map(|w| w[1].1 as f64 / w[0].1 as f64).fold(0.0, f64::max);
+                    st.max("growth.max_step_ratio_x100", (worst * 100.0) as u64);
+                    if let Some(at) = superpolynomial(&series) {
+                        let v = Violation {
+                            prop: "C18",
+                            kind: "build-cpu-time-grows-geometrically",
+                            detail: format!(
+                                "family {fam}: build() CPU time multiplies by >= {GROWTH_RATIO} on three consecutive +2-layer steps (n grows by <= 20 % per step; polynomial work of degree <= 6 cannot): (functions, microseconds) = {:?}",
+                                series[..=at].iter().map(|x| (x.0, x.1 / 1000)).collect::<Vec<_>>()
+                            ),
+                        };
+                        st.violation(&v, format!("growth_family={fam}|seed={}", mix(seed, i)), String::new());
+                    }
+                    if st.samples.len() < 2 {
+                        st.samples.push(J::obj(vec![("growth_family", J::u(fam as u64)), ("functions_and_cpu_micros", J::s(format!("{:?}", series.iter().map(|x| (x.0, x.1 / 1000)).collect::<Vec<_>>())))]));
+                    }
+                }
+            }
+        });
+        total.merge(gr);
         let mut floors = Vec::new();
+        if total.counters.get("growth.series_measured").copied().unwrap_or(0) < GROWTH_FAMILIES as u64 {
+            floors.push("growth monitor did not measure every family".to_string());
+        }
         if total.maxes.get("max_rank_calc_pops").copied().unwrap_or(0) == 0 {
             floors.push("hook never counted a pop".to_string());
         }
         if total.maxes.get("max_root_paths_in_a_graph").copied().unwrap_or(0) < 1_000_000 {
             floors.push("no graph with >= 10^6 root paths was generated (workload not hostile enough)".to_string());
         }
-        let rule = "case = one build() of a DAG from families whose number of root-to-node paths is exponential (layered w x d complete bipartite, complete DAG, diamond chains, dense random) under shuffled insertion orders; monitor = queue-pop counter hook in RankCalc::calc with an online budget of n^2+n, plus a hook-free count of access-declaration queries (<= 4n^2); distinct = distinct graph specs, all non-trivial (n >= 2)".to_string();
+        let rule = "case = one build() of a DAG from families whose number of root-to-node paths is exponential (layered w x d complete bipartite, complete DAG, diamond chains, dense random) under shuffled insertion orders; monitor = queue-pop counter hook in RankCalc::calc with an online budget of n^2+n, plus a hook-free count of access-declaration queries (<= 4n^2), plus a hook-free growth monitor: thread CPU time of build() along 8 graph families growing by +2 layers per step must not multiply by >= 3 on three consecutive steps; distinct = distinct graph specs, all non-trivial (n >= 2)".to_string();
         return Some((total, floors, rule));
     }
 
